@@ -38,6 +38,8 @@ type Request struct {
 	// EnvoyPathWithQuery: fill CheckRequest.path with path?query (the way Envoy does) instead of
 	// splitting path and query.
 	EnvoyPathWithQuery bool
+	// EnvoyNoScheme: leave the scheme attribute of the check request empty (Scheme "" then means "not told")
+	EnvoyNoScheme bool
 	// LocalAddr: source address to connect from (HTTP entry points), e.g. "127.0.0.2".
 	LocalAddr string
 	// EnvoyMetadata: gRPC metadata (x-forwarded-for)
@@ -272,7 +274,7 @@ func (c *Client) doEnvoy(caseID string, r Request) (Obs, error) {
 	}
 
 	scheme := r.Scheme
-	if scheme == "" {
+	if scheme == "" && !r.EnvoyNoScheme {
 		scheme = "http"
 	}
 
